@@ -57,8 +57,11 @@ Definition iers_leap_dates : list (Z * Z * Z) :=
     (1991, 1, 1); (1992, 7, 1); (1993, 7, 1); (1994, 7, 1); (1996, 1, 1); (1997, 7, 1);
     (1999, 1, 1); (2006, 1, 1); (2009, 1, 1); (2012, 7, 1); (2015, 7, 1); (2017, 1, 1) ].
 
-(* Unix seconds of those instants *)
-Definition leap_steps : list Z := map unix_of_civil iers_leap_dates.
+(* Unix seconds of those instants (evaluated once here: the case checker uses this list thousands of times) *)
+Definition leap_steps : list Z := Eval vm_compute in map unix_of_civil iers_leap_dates.
+Lemma leap_steps_def : leap_steps = map unix_of_civil iers_leap_dates.
+Proof. vm_compute. reflexivity. Qed.
+
 
 Definition ns : Z := 1000000000.
 
